@@ -1,7 +1,7 @@
 (** Glue for C14 (payload bytes), C01 (verify verdict under mutations) and
     C06 (SignSteps) with a symbolic instance of the signature scheme. *)
 From Coq Require Import String List Bool Arith.
-From GP Require Import Base.Sexp Model.Gv Model.Pipeline Model.Marshal Model.Jcs Model.Sign.
+From GP Require Import Base.Sexp Model.Gv Model.Pipeline Model.Marshal Model.Jcs Model.Sign Model.Reparse.
 Import ListNotations.
 Local Open Scope string_scope.
 
@@ -95,6 +95,39 @@ Definition run_sign_steps (c : sexp) : sexp :=
               L [A "signed"; L (concat (map (sigs_of key repo pe) ss'));
                  sbool (sexp_eqb (json_sexp (JArr (map mj_step (map erase_sig_step ss'))))
                                  (json_sexp (JArr (map mj_step (map erase_sig_step (pp_steps p))))))]
+          end
+      end
+  | _ => A "bad-case"
+  end.
+
+(** C02: ((doc) (penv) repo key (extra env pairs)) -> sign every step, marshal to JSON, re-parse,
+    verify every command step with the pipeline env plus unrelated variables *)
+Fixpoint verdicts (key : string) (repo : string) (pe : list (string * string)) (s : step) : list sexp :=
+  match s with
+  | SCommand c =>
+      [match cs_sig c with
+       | Some sg => sbool (sverify key sg c repo pe)
+       | None => A "unsigned"
+       end]
+  | SGroup _ _ ss _ => concat (map (verdicts key repo pe) ss)
+  | _ => []
+  end.
+
+Definition run_roundtrip (c : sexp) : sexp :=
+  match c with
+  | L [doc; L pe; A repo; A key; L extra] =>
+      match parse_doc (gv_of_sexp doc) with
+      | Err => A "doc-does-not-parse"
+      | Ok p _ =>
+          let pe := map pair_of pe in
+          match sign_steps string sym_alg sym_sgn key repo pe (pp_steps p) with
+          | None => L [A "refused"]
+          | Some ss' =>
+              let p1 := mkPipeline ss' (pp_env p) (pp_rem p) (pp_nosteps p) in
+              match reparse_json p1 with
+              | Err => L [A "reparse-error"]
+              | Ok p2 _ => L [A "ok"; L (concat (map (verdicts key repo (pe ++ map pair_of extra)) (pp_steps p2)))]
+              end
           end
       end
   | _ => A "bad-case"
